@@ -1,12 +1,13 @@
 (* C11 - Division gives daughters what the dividers promise; daughters are independent.
    Model: Model/Dividers.v (registry dividers; random choices are arguments), Model/Struct.v divide_value / OpDivide;
-   proofs: Proofs/Dividers_proofs.v.  Independence of the daughters (separate process instances, separate value
+   Model/DivTree.v divide_tree / rebuild (dividers declared at any node of the mother: variables, fixed and glob
+   branches; the share completed by the schema defaults); proofs: Proofs/Dividers_proofs.v, Proofs/DivTree_proofs.v.  Independence of the daughters (separate process instances, separate value
    objects) is about object identity: it is decided by the oracle of the check on real Stores (see DESIGN.md); in the
    model daughters are separate by construction (fresh uids and object ids, C09 frame).
    This file contains only statements closed by `exact`, their assumptions and non-vacuity examples.
    Generated once by tools/genprops.py from the proved lemmas (statements restated verbatim). *)
 From Coq Require Import List NArith ZArith Bool Lia Sorting.Permutation.
-From Viv Require Import Base.Assoc Base.Tree Model.Paths Model.Struct Model.Dividers Proofs.Dividers_proofs.
+From Viv Require Import Base.Assoc Base.Tree Model.Paths Model.Struct Model.Dividers Model.DivTree Proofs.Dividers_proofs Proofs.DivTree_proofs.
 Import ListNotations.
 Open Scope Z_scope.
 
@@ -135,6 +136,124 @@ Theorem C11_daughter_explicit_wins :
          NoDup (akeys e) -> get_in (deep_merge (Nd c) (Nd e)) [k] = Ok (Some (Lf z)).
 Proof. exact @daughter_explicit_wins. Qed.
 Print Assumptions C11_daughter_explicit_wins.
+
+(* a set divider declared on a branch hands both daughters the whole subtree, whatever is declared below *)
+Theorem C11_branch_set_copies :
+  forall (g : bool) (c : list (key * dnode)) (ch : list bool),
+         divide_tree true (DB g BSet c) ch = (Some (Nd (cvalues c), Nd (cvalues c)), ch).
+Proof. exact @branch_set_copies. Qed.
+Print Assumptions C11_branch_set_copies.
+
+(* set_value on a branch: both daughters get the configured value *)
+Theorem C11_branch_set_value_config :
+  forall (g : bool) (v : tree Z) (c : list (key * dnode)) (ch : list bool),
+         divide_tree true (DB g (BSetValue v) c) ch = (Some (v, v), ch).
+Proof. exact @branch_set_value_config. Qed.
+Print Assumptions C11_branch_set_value_config.
+
+(* split_dict on a branch: second half of the entries to the first daughter, first half to the second *)
+Theorem C11_branch_split_dict_shares :
+  forall (g : bool) (c : list (key * dnode)) (ch : list bool),
+         divide_tree true (DB g BSplitDict c) ch =
+         (Some
+            (Nd (skipn (half_len (cvalues c)) (cvalues c)),
+             Nd (firstn (half_len (cvalues c)) (cvalues c))), ch).
+Proof. exact @branch_split_dict_shares. Qed.
+Print Assumptions C11_branch_split_dict_shares.
+
+(* the two shares partition the entries (each entry whole), sizes differ by at most one, no random choice is consumed *)
+Theorem C11_branch_split_dict_partitions :
+  forall (g : bool) (c : list (key * dnode)) (ch : list bool) (l1 l2 : list (key * tree Z))
+           (ch' : list bool),
+         divide_tree true (DB g BSplitDict c) ch = (Some (Nd l1, Nd l2), ch') ->
+         l2 ++ l1 = cvalues c /\
+         Permutation (l1 ++ l2) (cvalues c) /\
+         (length l1 = length l2 \/ length l1 = S (length l2)) /\ ch' = ch.
+Proof. exact @branch_split_dict_partitions. Qed.
+Print Assumptions C11_branch_split_dict_partitions.
+
+(* with disjoint key sets *)
+Theorem C11_branch_split_dict_disjoint :
+  forall (g : bool) (c : list (key * dnode)) (ch : list bool) (l1 l2 : list (key * tree Z))
+           (ch' : list bool),
+         NoDup (map fst c) ->
+         divide_tree true (DB g BSplitDict c) ch = (Some (Nd l1, Nd l2), ch') ->
+         forall k : key, In k (map fst l1) -> In k (map fst l2) -> False.
+Proof. exact @branch_split_dict_disjoint. Qed.
+Print Assumptions C11_branch_split_dict_disjoint.
+
+(* split variables under branches without divider or with split_dict: the shares sum to the mother total, for every tree and every random choice *)
+Theorem C11_conserving_total :
+  forall n : dnode,
+         conserving n ->
+         forall (ch : list bool) (a b : tree Z) (ch' : list bool),
+         divide_tree true n ch = (Some (a, b), ch') -> tsum a + tsum b = tsum (dvalue n).
+Proof. exact @conserving_total. Qed.
+Print Assumptions C11_conserving_total.
+
+(* (no share at all only when there is nothing to share) *)
+Theorem C11_conserving_none :
+  forall n : dnode,
+         conserving n ->
+         forall ch ch' : list bool, divide_tree true n ch = (None, ch') -> tsum (dvalue n) = 0.
+Proof. exact @conserving_none. Qed.
+Print Assumptions C11_conserving_none.
+
+(* a branch without divider passes each of its variables to both daughters through the variable's own divider *)
+Theorem C11_no_divider_recurses :
+  forall (g : bool) (c : list (key * dnode)) (ch : list bool) (k : key) (v dflt : Z) (d : lk),
+         c <> [] ->
+         In (k, DL v dflt d) c ->
+         exists (l1 l2 : list (key * tree Z)) (ch' : list bool),
+           divide_tree true (DB g BNone c) ch = (Some (Nd l1, Nd l2), ch') /\
+           In k (map fst l1) /\ In k (map fst l2).
+Proof. exact @no_divider_recurses. Qed.
+Print Assumptions C11_no_divider_recurses.
+
+(* a daughter that receives the whole value holds the mother's values *)
+Theorem C11_rebuild_whole_value :
+  forall n : dnode, wf_dnode n -> dvalue (rebuild n (Some (dvalue n))) = dvalue n.
+Proof. exact @rebuild_whole_value. Qed.
+Print Assumptions C11_rebuild_whole_value.
+
+(* a fixed branch of a daughter keeps every declared child (completed by defaults) *)
+Theorem C11_rebuild_fixed_keys :
+  forall (d : bk) (c : list (key * dnode)) (t : option (tree Z)),
+         match rebuild (DB false d c) t with
+         | DL _ _ _ => False
+         | DB _ _ c' => map fst c' = map fst c
+         end.
+Proof. exact @rebuild_fixed_keys. Qed.
+Print Assumptions C11_rebuild_fixed_keys.
+
+(* a glob branch of a daughter holds only entries of its share *)
+Theorem C11_rebuild_glob_keys :
+  forall (d : bk) (c : list (key * dnode)) (l : list (key * tree Z)) (k : key),
+         match rebuild (DB true d c) (Some (Nd l)) with
+         | DL _ _ _ => False
+         | DB _ _ c' => In k (map fst c') -> In k (map fst l) /\ In k (map fst c)
+         end.
+Proof. exact @rebuild_glob_keys. Qed.
+Print Assumptions C11_rebuild_glob_keys.
+
+(* a variable without a share starts from its declared default *)
+Theorem C11_rebuild_leaf_default :
+  forall (v dflt : Z) (d : lk), dvalue (rebuild (DL v dflt d) None) = Lf dflt.
+Proof. exact @rebuild_leaf_default. Qed.
+Print Assumptions C11_rebuild_leaf_default.
+
+(* a variable with a share starts from the share *)
+Theorem C11_rebuild_leaf_share :
+  forall (v dflt : Z) (d : lk) (z : Z), dvalue (rebuild (DL v dflt d) (Some (Lf z))) = Lf z.
+Proof. exact @rebuild_leaf_share. Qed.
+Print Assumptions C11_rebuild_leaf_share.
+
+(* consulting dividers on childless nodes only (children first) hands every entry of a split_dict branch to both daughters *)
+Theorem C11_children_first_refuted :
+  fst (divide_tree false sd_example []) <> fst (divide_tree true sd_example []) /\
+         fst (divide_tree false sd_example []) = Some (dvalue sd_example, dvalue sd_example).
+Proof. exact @children_first_refuted. Qed.
+Print Assumptions C11_children_first_refuted.
 
 
 Example ex_split : divide_split (-3) true = (-1, -2) /\ divide_split 9007199254740995 false = (4503599627370497, 4503599627370498).
